@@ -435,7 +435,7 @@ def rule_parser_escape(ctx, ix):
 
 # ------------------------------------------------------------------------------------------------
 def rule_rejections(ctx, ix):
-    ctx.rule("C12.rejections", "assignment validation covers every right-hand-side tensor; sibling tree methods agree", min_instances=6)
+    ctx.rule("C12.rejections", "assignment validation covers every right-hand-side tensor; sibling tree methods agree", min_instances=4)
     f = ix.func(f"{A_MOD}.Assignment.__post_init__").node
     body = f.body
     loops = [s for s in body if isinstance(s, ast.For)]
@@ -451,66 +451,6 @@ def rule_rejections(ctx, ix):
     else:
         ctx.fail("C12.rejections", key, "validation does not iterate over every name of self.expression.variables()")
         return
-    name_v, vars_v = (u(e) for e in main.target.elts) if isinstance(main.target, ast.Tuple) else ("?", "?")
-    src_loop = u(main)
-
-    def raise_sites(node, exc):
-        return [n for n in ast.walk(node) if isinstance(n, ast.Raise) and n.exc is not None and exc in u(n.exc)]
-
-    # MutatingAssignmentError: name == target name, for every name
-    ctx.instance("C12.rejections")
-    key = "expression/ast.py:Assignment.__post_init__:MutatingAssignmentError"
-    ok = False
-    for s in main.body:
-        if isinstance(s, ast.If) and raise_sites(s, "MutatingAssignmentError") and u(s.test) in (f"{name_v} == target_name", f"{name_v} == self.target.name"):
-            ok = True
-    if ok:
-        ctx.ok("C12.rejections", key)
-    else:
-        ctx.fail("C12.rejections", key, "reuse of the target on the right-hand side is not rejected for every name")
-    # InconsistentDimensionsError: every occurrence compared with the first
-    ctx.instance("C12.rejections")
-    key = "expression/ast.py:Assignment.__post_init__:InconsistentDimensionsError"
-    ok = False
-    unpack = [s for s in main.body if isinstance(s, ast.Assign) and u(s.value) == vars_v and isinstance(s.targets[0], ast.Tuple)]
-    if unpack:
-        t = unpack[0].targets[0]
-        if len(t.elts) == 2 and isinstance(t.elts[1], ast.Starred):
-            first, rest = u(t.elts[0]), u(t.elts[1].value)
-            for s in main.body:
-                if isinstance(s, ast.For) and u(s.iter) == rest and raise_sites(s, "InconsistentDimensionsError"):
-                    v = u(s.target)
-                    tests = [u(x.test) for x in s.body if isinstance(x, ast.If)]
-                    if f"{first}.order != {v}.order" in tests or f"{v}.order != {first}.order" in tests:
-                        ok = True
-    if ok:
-        ctx.ok("C12.rejections", key)
-    else:
-        ctx.fail("C12.rejections", key, "not every occurrence of a tensor is compared with the first one (iteration coverage: all but the reference)")
-    # NameConflictError: decided after the loop (also for right-hand sides without tensors), over all names and all indexes
-    ctx.instance("C12.rejections")
-    key = "expression/ast.py:Assignment.__post_init__:NameConflictError"
-    problems = []
-    sites = raise_sites(f, "NameConflictError")
-    if not sites:
-        problems.append("never raised")
-    for r in sites:
-        if any(x is r for x in ast.walk(main)):
-            problems.append("the check is inside the loop over right-hand-side tensors: skipped when the right-hand side has no tensor")
-    if "index_names = set(self.target.indexes)" not in u(f):
-        problems.append("target indexes are not part of index_names")
-    if f"index_names.update(variable.indexes)" not in src_loop and "index_names.update(" not in src_loop:
-        problems.append("indexes of right-hand-side tensors are not collected")
-    if not re.search(r"variable_orders(: dict\[str, int\])? = \{target_name: self\.target\.order\}", u(f)):
-        problems.append("target name is not part of variable_orders")
-    if f"variable_orders[{name_v}] = " not in src_loop:
-        problems.append("right-hand-side names are not recorded in variable_orders")
-    if "conflicted_names = index_names.intersection(variable_orders.keys())" not in u(f):
-        problems.append("conflict set is not index names ∩ tensor names")
-    if problems:
-        ctx.fail("C12.rejections", key, "; ".join(problems))
-    else:
-        ctx.ok("C12.rejections", key)
     # siblings
     for m in ("variables", "index_participants"):
         ctx.instance("C12.rejections")
@@ -532,6 +472,89 @@ def rule_rejections(ctx, ix):
         ctx.fail("C12.rejections", "expression/ast.py:merge_index_participants", "does not merge the participants of both operands over the union of their indexes")
 
 
+def rule_rejections_semantic(ctx, ix):
+    """Assignment.__post_init__ evaluated abstractly (vf/srules/symeval.py) on a bounded-exhaustive set
+    of assignment *structures* (names, index tuples, orders; no values exist at this level): reuse of
+    the target in any form, a tensor used with two orders, and a name used as both tensor and index must
+    raise their typed error; consistent structures must be accepted with the right variable orders."""
+    import itertools
+
+    from . import symeval as S
+
+    ctx.rule("C12.rejection-semantics", "abstract evaluation of Assignment.__post_init__ over assignment structures", min_instances=300)
+    fn = ix.func(f"{A_MOD}.Assignment.__post_init__").node
+
+    def T(name, indexes):
+        return S.Obj("SugarTensor", __structural__=True, name=name, indexes=tuple(indexes), order=len(indexes))
+
+    def scenario(target, occurrences):
+        variables = {}
+        for t in occurrences:
+            variables.setdefault(t.attrs["name"], []).append(t)
+        expr = S.Obj("Expression", variables=lambda: {k: list(v) for k, v in variables.items()})
+        return S.Obj("Assignment", target=target, expression=expr)
+
+    def oracle(target, occurrences):
+        errs = set()
+        tn = target.attrs["name"]
+        orders = {tn: target.attrs["order"]}
+        idx = set(target.attrs["indexes"])
+        for t in occurrences:
+            idx |= set(t.attrs["indexes"])
+            if t.attrs["name"] == tn:
+                errs.add("MutatingAssignmentError")
+        by = {}
+        for t in occurrences:
+            by.setdefault(t.attrs["name"], []).append(t.attrs["order"])
+        for n, os_ in by.items():
+            if len(set(os_)) > 1:
+                errs.add("InconsistentDimensionsError")
+            orders.setdefault(n, os_[0])
+        if idx & (set(by) | {tn}):
+            errs.add("NameConflictError")
+        return errs, orders
+
+    names = ["A", "B", "i"]
+    index_tuples = [(), ("i",), ("j",), ("i", "j"), ("j", "i"), ("A",), ("i", "B")]
+    targets = [T("A", ix_) for ix_ in [(), ("i",), ("i", "j"), ("A",), ("B",)]]
+    occs = [T(n, ix_) for n in names for ix_ in index_tuples]
+    G = {
+        "MutatingAssignmentError": lambda *a: S.Obj("Exception", name="MutatingAssignmentError"),
+        "InconsistentDimensionsError": lambda *a: S.Obj("Exception", name="InconsistentDimensionsError"),
+        "NameConflictError": lambda *a: S.Obj("Exception", name="NameConflictError"),
+    }
+    n_cases = 0
+    bad = {}
+    for target in targets:
+        rhs_sets = [()] + [(o,) for o in occs] + [p for p in itertools.combinations(occs, 2)] 
+        for rhs in rhs_sets:
+            n_cases += 1
+            want, orders = oracle(target, rhs)
+            self_ = scenario(target, rhs)
+            outs = list(S.explore(fn, [self_], globals_=G))
+            label = f"{target.attrs['name']}({','.join(target.attrs['indexes'])}) = " + " , ".join(f"{o.attrs['name']}({','.join(o.attrs['indexes'])})" for o in rhs)
+            for _a, (kind, val) in outs:
+                if kind == "uninterpretable":
+                    bad.setdefault(f"validation code not interpretable: {val}", label)
+                elif want:
+                    if kind != "raise":
+                        bad.setdefault(f"accepted although it must be rejected with {sorted(want)}", label)
+                    elif val not in want:
+                        bad.setdefault(f"raises {val}, expected one of {sorted(want)}", label)
+                else:
+                    if kind == "raise":
+                        bad.setdefault(f"a consistent assignment is rejected with {val}", label)
+                    elif self_.attrs.get("_variable_orders") != orders:
+                        bad.setdefault(f"variable orders recorded as {self_.attrs.get('_variable_orders')}, expected {orders}", label)
+    ctx.instance("C12.rejection-semantics", n_cases)
+    if bad:
+        for why, label in bad.items():
+            ctx.fail("C12.rejection-semantics", f"expression/ast.py:Assignment.__post_init__:{why.split(':')[0][:60]}", f"{why}; e.g. `{label}`")
+        ctx.ok("C12.rejection-semantics", n=max(0, n_cases - len(bad)))
+    else:
+        ctx.ok("C12.rejection-semantics", "expression/ast.py:Assignment.__post_init__", n=n_cases)
+
+
 def run(ctx):
     ix = SourceIndex(ctx.src)
     rule_grammar(ctx, ix)
@@ -540,4 +563,5 @@ def run(ctx):
     rule_literals(ctx, ix)
     rule_parser_escape(ctx, ix)
     rule_rejections(ctx, ix)
+    rule_rejections_semantic(ctx, ix)
     return ix
